@@ -406,9 +406,39 @@ static double npvbuf ( pybind11::buffer a, int op, double k, int i, pybind11::bu
   return -1;
 }
 
+// third path: the members of NumPyVector that hand out its storage -- `coefficients()` (the wrapped / owned array; only the
+// non-const overload: the const one returns a non-const reference to a member and is ill-formed when instantiated), `data()` (address of entry 0, const and non-const overload) and the const element access:
+//   op 1: x[i] = k written through *coefficients().mutable_data(i) (i > 0) or *data() (i == 0); returns the one norm seen by x
+//   op 9: x[i] read through the const overloads: *coefficients().data(i) / *data(), which must agree with const operator[]
+static double npvcoef ( pybind11::buffer a, int op, double k, int i, pybind11::buffer )
+{
+  Dune::Python::NumPyVector< double > x( a );
+  const Dune::Python::NumPyVector< double > &cx = x;
+  switch( op )
+  {
+  case 1:
+    if( i == 0 )
+      *x.data() = k;
+    else
+      *x.coefficients().mutable_data( i ) = k;     // byte-accurate (array_t::mutable_at divides the byte offset by the item size)
+    return x.one_norm();
+  case 9:
+    {
+      const double viaArray = *x.coefficients().data( i );   // (the const overload of coefficients() does not compile)
+      const double viaIndex = cx[ i ];
+      const double viaData = (i == 0 ? *cx.data() : viaIndex);
+      if( (viaArray != viaIndex) || (viaData != viaIndex) || (cx.vec_access( i ) != viaIndex) || (cx.vec_size() != cx.size()) )
+        return -12345678.5;       // the accessors disagree: no entry has this value (entries are integers)
+      return viaArray;
+    }
+  }
+  return -1;
+}
+
 PYBIND11_MODULE( c20helper, module )
 {
   module.def( "npvbuf", &npvbuf );
+  module.def( "npvcoef", &npvcoef );
 }
 """
 
@@ -1896,7 +1926,7 @@ class Exec:
         """path A: algorithm module generated by dune.generator (argument pybind11::array_t<double>&: pybind11 converts a
         buffer of another element type before the call); path B: NumPyVector( pybind11::buffer ) on the object itself"""
         arr = self.a[a]
-        f = STATE.helper.npvbuf if pathb else STATE.npv
+        f = STATE.helper.npvcoef if pathb == "c" else (STATE.helper.npvbuf if pathb else STATE.npv)
         return f(arr, op, float(k), int(i), arr if b is None else self.a[b])
 
     def _nvec(self, tk, which, pathb):
@@ -2340,6 +2370,8 @@ def _install_nvec_ops():
     for which in ("nscale", "nset", "nget", "nnorms", "naxpy", "nadd", "nrun"):
         setattr(Exec, "op_" + which, mk(which, False))
         setattr(Exec, "op_" + which + "b", mk(which, True))
+    for which in ("nset", "nget"):        # through coefficients() / data() / the const accessors (helper function npvcoef)
+        setattr(Exec, "op_" + which + "c", mk(which, "c"))
 
 
 _install_nvec_ops()
@@ -2709,9 +2741,9 @@ def gen_program(r, idx, tier):
         elif op == "nscale":
             segs.append("nscale%s %s %d" % ("b" if r.coin() else "", ar(), gen_scalar(r)))
         elif op == "nset":
-            segs.append("nset%s %s %d %d" % ("b" if r.coin() else "", ar(), r.range(0, max(0, n - 1)), gen_val(r)))
+            segs.append("nset%s %s %d %d" % (r.pick(["", "b", "c"]), ar(), r.range(0, max(0, n - 1)), gen_val(r)))
         elif op == "nget":
-            segs.append("nget%s %s %d" % ("b" if r.coin() else "", ar(), r.range(0, max(0, n - 1))))
+            segs.append("nget%s %s %d" % (r.pick(["", "b", "c"]), ar(), r.range(0, max(0, n - 1))))
         elif op == "naxpy":
             segs.append("naxpy%s %s %d %s" % ("b" if r.coin() else "", ar(), gen_scalar(r), ar()))
         elif op == "nadd":
